@@ -1,0 +1,40 @@
+//go:build verif
+
+// Contracts for govc (see /verif/DESIGN.md). Comment-only; compiled only with -tags verif.
+
+package stringtemplate
+
+//@ property C15 C07 C16
+
+// ppval(f, src): the (pure) value the part provider f yields for the source record
+//@ pure func ppval(f int, src []string) string
+//@ fieldspec PartProvider(source RecordType) string
+//@   ensures result === ppval(self, source)
+
+// Python slice semantics of ${name[a:b]}: a negative bound counts from the end, both bounds are clamped to the value,
+// an empty or inverted range gives ""
+//@ pure func pystart(n int, a int) int := a < 0 ? (a + n < 0 ? 0 : a + n) : (a > n ? n : a)
+//@ pure func pyend(n int, b int) int := b < 0 ? (b + n < 0 ? 0 : b + n) : (b > n ? n : b)
+//@ pure func pyslice(v string, a int, b int) string := pystart(len(v), a) < pyend(len(v), b) ? v[pystart(len(v), a) : pyend(len(v), b)] : ""
+
+//@ func createVariableExpressionSolver$1(source RecordType) string
+//@   requires variableResolver != nil
+//@   ensures[python-slice] result == pyslice(ppval(ref(variableResolver), source), paramStart, paramEnd)
+//@   ensures[substring-or-empty] len(result) == 0 || (arr(result) === arr(ppval(ref(variableResolver), source)))
+//@   canary ensures result == pyslice(ppval(ref(variableResolver), source), paramStart + 1, paramEnd)
+
+// expansion = concatenation of the parts in template order. A one-part template returns that part itself (no copy);
+// otherwise the result is a fresh copy (it never aliases the scratch buffer) whose length is the sum of the part lengths
+// (ghost prefix sum elen). The byte-wise content clause (part k occupies [elen(k), elen(k+1))) is not yet proved.
+//@ pure func elen(t Expander, f []string, k int) int
+//@ func (tmpl Expander) RunWithBuffer(fields RecordType, buffer []byte) (string, []byte)
+//@   requires forall k int :: 0 <= k && k < len(tmpl.partProviders) ==> tmpl.partProviders[k] != nil
+//@   define   elen(tmpl, fields, 0) == 0 && forall k int :: 0 <= k && k < len(tmpl.partProviders) ==>
+//@               elen(tmpl, fields, k + 1) == elen(tmpl, fields, k) + len(ppval(ref(tmpl.partProviders[k]), fields))
+//@   define   forall k int :: 0 <= k && k <= len(tmpl.partProviders) ==> 0 <= elen(tmpl, fields, k)
+//@   modifies buffer[:]
+//@   ensures[single-part] len(tmpl.partProviders) == 1 ==> result.0 === ppval(ref(tmpl.partProviders[0]), fields)
+//@   ensures[length-is-sum-of-parts] len(tmpl.partProviders) != 1 ==> len(result.0) == elen(tmpl, fields, len(tmpl.partProviders))
+//@   ensures[scratch-buffer-reset] len(result.1) == 0 || (len(tmpl.partProviders) == 1 && result.1 === buffer)
+//@   loop 1: invariant -1 <= rangeindex && rangeindex < len(tmpl.partProviders) && len(buf) == elen(tmpl, fields, rangeindex + 1)
+//@   loop 1: invariant (ref(buf) == ref(buffer) && off(buf) == off(buffer) && cap(buf) == cap(buffer)) || isfresh(buf)
